@@ -249,5 +249,22 @@ def res_texts(uni):
     return {u: [ln["t"] for ln in ls] for u, ls in uni["res"].items()}
 
 
-def join(lines):
-    return "".join(x + "\n" for x in lines)
+def join(lines, eol="\n", final=True):
+    """Serialise text lines.  *eol* '\n' or '\r\n'; *final* False leaves the
+    last line without a line terminator (a file that does not end in a
+    newline)."""
+    text = "".join(x + eol for x in lines)
+    if not final and lines:
+        text = text[:-len(eol)]
+    return text
+
+
+def eol_choice(rng):
+    r = rng.random()
+    if r < 0.75:
+        return ["\n", True]
+    if r < 0.87:
+        return ["\r\n", True]
+    if r < 0.95:
+        return ["\n", False]
+    return ["\r\n", False]
